@@ -29,10 +29,14 @@ RULE = (
 ASSUMPTIONS = ["the 'shutdown' request is a feature of the protocol, not abuse, and is not sent", "fake processes in the virtual lane"]
 
 
+QUICK_BUDGET = {"cases": 4000, "deadline_s": 90, "case_timeout_s": 120, "floors": {"accepted_tasks": 15000, "abusive_lines": 15000, "healthy_responses": 15000, "liveness_probes": 3900, "real_tasks": 20}}
+THOROUGH_FACTOR = 50  # thorough = the same workload with 50x the cases (floors scale along)
+
+
 def budget(tier):
-    if tier == "thorough":
-        return {"cases": 40000, "deadline_s": 700, "case_timeout_s": 120, "floors": {"accepted_tasks": 150000, "abusive_lines": 150000, "healthy_responses": 150000, "liveness_probes": 39000, "real_tasks": 300}}
-    return {"cases": 4000, "deadline_s": 90, "case_timeout_s": 120, "floors": {"accepted_tasks": 15000, "abusive_lines": 15000, "healthy_responses": 15000, "liveness_probes": 3900, "real_tasks": 20}}
+    from ..core import scaled_budget
+
+    return scaled_budget(QUICK_BUDGET, tier, THOROUGH_FACTOR, noscale=('real_tasks',))
 
 
 ABUSE_RAW = [
